@@ -178,7 +178,11 @@ def step (st : St) (pre post : List String) : St × Verdict :=
   let H := Hq st.tb
   match pre with
   | ["mode", strict, dup, succ] =>
-    ({ st with fx := ⟨strict = "strict=1", dup = "dup=1", succ = "succ=1"⟩ }, .ok)
+    -- the probe's findings select the model; when the check states which repairs it expects, a code
+    -- base that lacks one of them is a reported regression
+    ({ st with fx := ⟨strict = "strict=1", dup = "dup=1", succ = "succ=1"⟩ },
+     if post = ["-"] ∨ post = [strict, dup, succ] then .ok
+     else .propfail "proof-repair-regressed" s!"{line} expected {post}")
   | ["open", _] => ({ st with trees := [], commits := [] }, .ok)
   | ["end"] => ({ st with trees := [], commits := [], tb := {} }, .ok)
   | ["fact", x] =>
